@@ -239,8 +239,11 @@ def execute(case, stats):
             for k in want:
                 if k not in have:
                     V("projection", "requested-variable-missing", {"group": g, "key": k, "keys": sorted(have), "select": names})
+            all_merged = merge_names(want_raw_all, q["ndim"])
+            stored_names = set(all_merged) | set(want_raw_all)
             for k in have:
-                if k not in want and k not in derived:
+                # only keys that stand for stored variables can be "excluded but present"
+                if k not in want and k not in derived and k in stored_names:
                     V("projection", "excluded-variable-present", {"group": g, "key": k, "select": names})
             for k in derived:
                 if k not in have:
